@@ -31,11 +31,15 @@ def text(header, rows):
     pad = max(0, 12 - nf)
     L.append('XFLN ' + ' '.join(fmt(v) for v in list(header['xfields']) + [0.0] * pad))
     L.append('YFLN ' + ' '.join(fmt(v) for v in list(header['yfields']) + [0.0] * pad))
-    L.append(f"PWAV {header['pwav']}")
+    # header lines are keyword records: their order is not fixed (files in the wild carry PWAV before or after the WAVM table)
+    if not header.get('pwav_last'):
+        L.append(f"PWAV {header['pwav']}")
     for i, w in enumerate(header['waves'], start=1):
         L.append(f'WAVM {i} {fmt(w)} 1')
     for i in range(nw + 1, 25):
         L.append(f'WAVM {i} 0.55000000000000004 1')
+    if header.get('pwav_last'):
+        L.append(f"PWAV {header['pwav']}")
     for k, r in enumerate(rows):
         L.append(f'SURF {k}')
         if r.get('stop'):
